@@ -12,7 +12,7 @@
 (* operators are consistent on this scope (e.g. a circuit that is          *)
 (* TrivialFit has enough free width).                                      *)
 (***************************************************************************)
-EXTENDS Integers, Sequences, FiniteSets, TLC, Json, Geometry
+EXTENDS Integers, Sequences, FiniteSets, TLC, Json, LegalizeImpl
 CONSTANTS RowW, WMax, Pols, Patterns, XS, YS, NFixOpts
 
 RowPatterns == << <<"N", "FS">>, <<"N", "N">>, <<"S", "FN">>, <<"FS", "N">> >>
@@ -49,5 +49,16 @@ ContractSane ==
     /\ (Len(cells) >= 1 /\ TrivialFit(c)) =>
           SumSeq([i \in 1..Len(cells) |-> cells[i].w]) <= SumSeq([r \in 1..Len(c.rows) |-> c.rows[r].x1 - c.rows[r].x0])
     /\ Legal(c) => NoOverlap(c)
-Emit == Len(cells) = 0 \/ PrintT(ToJson([scen |-> "legcase", circ |-> Circ, trivial |-> TrivialFit(Circ), legal |-> Legal(Circ)]))
+\* the implementation-shaped design (LegalizeImpl.Result) satisfies the contract on every circuit of the scope
+ImplRes == Result(Circ)
+AllRowHighC(c) == \A i \in Movable(c) : PH(c.cells[i]) = RowH(c)
+PolRowsAllowed(c) == \A i \in Movable(c) : c.cells[i].p = "ANY" \/
+                        \E ro \in RowOrientsAt(c, c.cells[i]) : CellOrientationInRow(c.cells[i].p, ro) # "INVALID"
+DesignLegal == (Len(cells) >= 1 /\ ImplRes.ok) => Legal(ImplRes.circ) /\ OrientOK(Circ, ImplRes.circ) /\ Frame(Circ, ImplRes.circ)
+DesignTrivial == (Len(cells) >= 1 /\ TrivialFit(Circ)) => ImplRes.ok
+DesignStable == (Len(cells) >= 1 /\ Legal(Circ) /\ AllRowHighC(Circ) /\ PolRowsAllowed(Circ)) =>
+                   ImplRes.ok /\ \A i \in Movable(Circ) : ImplRes.circ.cells[i].x = Circ.cells[i].x /\ ImplRes.circ.cells[i].y = Circ.cells[i].y
+ImplPos == [i \in 1..Len(ImplRes.circ.cells) |-> <<ImplRes.circ.cells[i].x, ImplRes.circ.cells[i].y, ImplRes.circ.cells[i].o>>]
+Emit == Len(cells) = 0 \/ PrintT(ToJson([scen |-> "legcase", circ |-> Circ, trivial |-> TrivialFit(Circ), legal |-> Legal(Circ),
+                                                  impl |-> [ok |-> ImplRes.ok, pos |-> ImplPos]]))
 =============================================================================
